@@ -4,8 +4,8 @@
       of [remove_unconf_with_descendants] (InvRemove.v), [balance_correct],
       [utxos_correct], [details_correct] (InvObs.v), and C14's
       [dependency_sort_correct] (KahnProofs.v). *)
-From stdpp Require Import gmap list numbers sorting.
-From Coq Require Import ZArith NArith.
+From stdpp Require Import gmap list numbers sorting strings.
+From Coq Require Import ZArith NArith Strings.String.
 From Verif Require Import Tx.Store Tx.Ledger Tx.Hist Tx.Inv Tx.InvRemove Tx.InvSeen Tx.InvObs Tx.Refine.
 From Verif Require Import Tx.Publish.
 From Verif Require Tx.Kahn Tx.KahnProofs.
@@ -188,8 +188,7 @@ Qed.
 
 (** * 2. One publish attempt refines the specification *)
 
-Definition branch (cfg : pcfg) (a : answer) (notify_ok : bool) : action :=
-  if notify_ok then cfg_class cfg a else cfg_notify cfg.
+Notation branch := branch_of (only parsing).
 
 Definition result_of (act : action) : presult := if act_error act then PError else PSuccess.
 
@@ -420,5 +419,218 @@ Section publish.
   Lemma spec_publish_expected (F : facts) (t : N) (a : answer) (ok : bool) :
     spec_publish_cfg expected_cfg U F t a ok = spec_publish U F t a ok ∧
     result_of (branch expected_cfg a ok) = expected_result a ok.
-  Proof. by destruct a, ok. Qed.
+  Proof.
+    unfold spec_publish_cfg, spec_publish, expected_result, result_of, branch_of, stays, failed,
+      is_mempool, is_known, spec_finish. simpl. unfold expected_class.
+    destruct ok; simpl; [|done]. by destruct (class_of a).
+  Qed.
 End publish.
+
+(** * 2b. The answer classification is total over the sentinels
+
+    The configuration read from the source gives, for every exported sentinel
+    of package chain, the branch that an error which Is this sentinel takes
+    ([table_class base tbl]).  [table_sound] is decidable on the regenerated
+    table; when it holds the configuration treats EVERY answer - whatever the
+    sentinel's name - as the five branches treat the answer's class. *)
+Lemma assoc_In {A} (k : string) (l : list (string * A)) (v : A) : assoc k l = Some v → In (k, v) l.
+Proof.
+  induction l as [|[k' v'] l IH]; [done|]. simpl. destruct (String.eqb k' k) eqn:E.
+  - intros [= ->]. apply String.eqb_eq in E as ->. by left.
+  - intros H. right. by apply IH.
+Qed.
+
+Lemma In_assoc {A} (k : string) (l : list (string * A)) (v : A) : In (k, v) l → is_Some (assoc k l).
+Proof.
+  induction l as [|[k' v'] l IH]; [done|]. simpl. intros [[= -> ->]|H].
+  - by rewrite String.eqb_refl.
+  - destruct (String.eqb k' k); [done|by apply IH].
+Qed.
+
+Lemma class_of_idem (a : answer) : class_of (class_of a) = class_of a.
+Proof. destruct a as [| | | | |n]; try done. simpl. by destruct (sentinel_class n). Qed.
+
+Lemma class_of_base (a : answer) : ∀ n, class_of a ≠ ASentinel n.
+Proof. intros n'. destruct a as [| | | | |n]; try done. simpl. by destruct (sentinel_class n). Qed.
+
+Definition table_sound (base : answer → action) (tbl : list (string * action)) : bool :=
+  forallb (λ r, bool_decide (r.2 = base (class_of (ASentinel r.1)))) tbl &&
+  forallb (λ r, bool_decide (is_Some (assoc r.1 tbl))) sentinel_classes.
+
+Lemma table_class_by_class (base : answer → action) (tbl : list (string * action)) :
+  table_sound base tbl = true → ∀ a, table_class base tbl a = base (class_of a).
+Proof.
+  intros [H1 H2]%andb_true_iff a. destruct a as [| | | | |n]; try done.
+  unfold table_class. destruct (assoc n tbl) as [act|] eqn:E; simpl.
+  - apply assoc_In in E. rewrite forallb_forall in H1. specialize (H1 _ E). by apply bool_decide_eq_true in H1.
+  - f_equal. unfold sentinel_class. destruct (assoc n sentinel_classes) as [c|] eqn:Ec; [|done].
+    apply assoc_In in Ec. rewrite forallb_forall in H2. specialize (H2 _ Ec). apply bool_decide_eq_true in H2.
+    simpl in H2. rewrite E in H2. by destruct H2.
+Qed.
+
+(** the names of the regenerated table and of the model's list are the same set *)
+Definition same_names {A B} (l1 : list (string * A)) (l2 : list (string * B)) : bool :=
+  forallb (λ r, bool_decide (is_Some (assoc r.1 l2))) l1 && forallb (λ r, bool_decide (is_Some (assoc r.1 l1))) l2.
+
+Lemma same_names_spec {A B} (l1 : list (string * A)) (l2 : list (string * B)) :
+  same_names l1 l2 = true → ∀ n, In n (map fst l1) ↔ In n (map fst l2).
+Proof.
+  intros [H1 H2]%andb_true_iff n. rewrite forallb_forall in H1, H2. rewrite !in_map_iff. split.
+  - intros ([k v] & <- & Hin). specialize (H1 _ Hin). apply bool_decide_eq_true in H1 as [w Hw].
+    exists (k, w). split; [done|]. by apply assoc_In.
+  - intros ([k v] & <- & Hin). specialize (H2 _ Hin). apply bool_decide_eq_true in H2 as [w Hw].
+    exists (k, w). split; [done|]. by apply assoc_In.
+Qed.
+
+Section classes.
+  Context (cfg : pcfg) (base : answer → action).
+  Hypothesis Hcls : ∀ a, cfg_class cfg a = base (class_of a).
+
+  Lemma rejection_class (a : answer) : is_rejection a = true → class_of a = AReject.
+  Proof. unfold is_rejection, answer_eqb. by intros ?%bool_decide_eq_true. Qed.
+
+  (** every answer of the rejection class takes the rejection branch *)
+  Lemma by_class_rejection (a : answer) : base AReject = drop_err → is_rejection a = true → cfg_class cfg a = drop_err.
+  Proof. intros Hb Ha. by rewrite Hcls, (rejection_class a Ha). Qed.
+
+  Lemma by_class_mempool (a : answer) :
+    base AAccept = keep_ok → base AInMempool = keep_ok → is_mempool a = true → cfg_class cfg a = keep_ok.
+  Proof. intros H1 H2 Ha. rewrite Hcls. unfold is_mempool in Ha. by destruct (class_of a). Qed.
+
+  Lemma by_class_known (a : answer) :
+    admissible_known (base AKnown) = true → admissible_known (base AConfirmed) = true →
+    is_known a = true → admissible_known (cfg_class cfg a) = true.
+  Proof. intros H1 H2 Ha. rewrite Hcls. unfold is_known in Ha. by destruct (class_of a). Qed.
+
+  (** The configuration of the code IS the configuration the text asks for
+      (with the text's freedom on "already known / confirmed" resolved as the
+      code resolves it): same branch for every answer and subscription outcome. *)
+  Lemma meets_text :
+    cfg_notify cfg = drop_err → base AAccept = keep_ok → base AInMempool = keep_ok → base AReject = drop_err →
+    admissible_known (base AKnown) = true → admissible_known (base AConfirmed) = true →
+    ∀ a ok, branch_of (text_cfg cfg) a ok = branch_of cfg a ok.
+  Proof.
+    intros Hn H1 H2 H3 H4 H5 a ok. unfold branch_of, text_cfg, text_action. destruct ok; simpl; [|done].
+    destruct (is_known a) eqn:Hk.
+    - by rewrite (by_class_known a H4 H5 Hk).
+    - rewrite Hcls. unfold expected_class. unfold is_known in Hk. pose proof (class_of_base a) as Hb.
+      destruct (class_of a) as [| | | | |n]; try done. by destruct (Hb n).
+  Qed.
+End classes.
+
+Section known.
+  Context (U : gmap N tx) (Hwf : wf_universe U = true).
+
+  (** "already known / already confirmed" on a fresh transaction, for every
+      configuration the text admits: either nothing is left (facts and
+      observables of before the attempt), or the call reports success and the
+      transaction is recorded as unconfirmed. *)
+  Theorem known_answer_consistent (cfg : pcfg) (s : store) (F : facts) (t : N) (a : answer) :
+    admissible_known (cfg_class cfg a) = true →
+    Inv U s F → event_ok U F (Seen t) = true → fresh U F t = true →
+    ∃ r s', publish cfg U t a true s = (r, s') ∧
+            ((Inv U s' F ∧ same_observables U s s' F) ∨ (r = PSuccess ∧ Inv U s' (spec_seen U F t))).
+  Proof.
+    intros Hadm HI Hok Hfr.
+    destruct (publish_ok U Hwf cfg s F t a true HI Hok) as (s' & Hp & HI').
+    exists (result_of (branch_of cfg a true)), s'. split; [done|].
+    unfold spec_publish_cfg, spec_finish, branch_of, result_of in *.
+    unfold admissible_known in Hadm.
+    destruct (cfg_class cfg a) as [rm er]. simpl in *. destruct rm.
+    - left. rewrite (abandon_fresh U F t Hfr) in HI'. split; [done|]. by apply same_facts_same_observables.
+    - right. destruct er; [done|]. by split.
+  Qed.
+End known.
+
+(** * 2c. MapRPCErr never turns a rejection text into an "I have it" class *)
+Lemma hits_spec (msg : string) (tbl : list (string * string)) (c : string) :
+  In c (hits msg tbl) ↔ ∃ key, In (key, c) tbl ∧ match_err_str msg key = true.
+Proof.
+  unfold hits. rewrite in_map_iff. split.
+  - intros ([k c'] & Hc & [Hin Hm]%filter_In). simpl in *. subst c'. by exists k.
+  - intros (k & Hin & Hm). exists (k, c). split; [done|]. apply filter_In. by split.
+Qed.
+
+Lemma candidates_from_tables (T : map_tables) (b : backend) (msg : string) (c : string) :
+  In c (map_candidates T b msg) →
+  c = undefined_name ∨ ∃ tbl, In tbl (all_tables T) ∧ In c (hits msg tbl).
+Proof.
+  unfold all_tables. destruct b; simpl.
+  - destruct (hits msg (mt_bitcoind T)) as [|x l] eqn:E1.
+    + destruct (hits msg (mt_bitcoind28 T)) as [|y l'] eqn:E2.
+      * intros [<-|[]]. by left.
+      * intros H. right. exists (mt_bitcoind28 T). rewrite E2. split; [tauto|done].
+    + intros [<-|[]]. right. exists (mt_bitcoind T). rewrite E1. split; [tauto|by left].
+  - destruct (hits msg (mt_btcd T)) as [|x l] eqn:E1.
+    + intros [<-|[]]. by left.
+    + intros H. right. exists (mt_btcd T). rewrite E1. split; [tauto|done].
+  - destruct (hits msg (mt_btcd T)) as [|x l] eqn:E1.
+    + destruct (hits msg (mt_btcd_pre T)) as [|y l'] eqn:E2.
+      * intros [<-|[]]. by left.
+      * intros H. right. exists (mt_btcd_pre T). rewrite E2. split; [tauto|done].
+    + intros H. right. exists (mt_btcd T). rewrite E1. split; [tauto|done].
+  - destruct (hits msg (mt_btcd T)) as [|x l] eqn:E1.
+    + destruct (hits msg (mt_btcd_pre T)) as [|y l'] eqn:E2.
+      * intros [<-|[]]. by left.
+      * intros H. right. exists (mt_btcd_pre T). rewrite E2. split; [tauto|done].
+    + intros H. right. exists (mt_btcd T). rewrite E1. split; [tauto|done].
+Qed.
+
+(** For tables that respect the classes: a node's text that contains none of
+    the "I have it already" texts is mapped, by every backend and whatever the
+    iteration order of the Go maps, to a sentinel of the rejection class. *)
+Theorem rejection_text_maps_to_rejection (T : map_tables) (b : backend) (msg : string) :
+  tables_respect T = true → plain_rejection_text msg = true →
+  ∀ c, In c (map_candidates T b msg) → sentinel_class c = AReject.
+Proof.
+  intros HT Hmsg c Hc.
+  destruct (candidates_from_tables T b msg c Hc) as [->|(tbl & Htbl & Hhit)]; [done|].
+  unfold tables_respect in HT. rewrite forallb_forall in HT. specialize (HT _ Htbl).
+  apply hits_spec in Hhit as (key & Hin & Hm).
+  unfold table_respects in HT. rewrite forallb_forall in HT. specialize (HT _ Hin).
+  apply bool_decide_eq_true in HT. simpl in HT. rewrite HT.
+  unfold text_class. destruct (assoc key accepting_texts) as [a|] eqn:E; [|done].
+  apply assoc_In in E. unfold plain_rejection_text in Hmsg. rewrite forallb_forall in Hmsg.
+  specialize (Hmsg _ E). simpl in Hmsg. by rewrite Hm in Hmsg.
+Qed.
+
+Lemma rejection_text_is_rejected (T : map_tables) (b : backend) (msg : string) :
+  tables_respect T = true → plain_rejection_text msg = true →
+  ∀ c, In c (map_candidates T b msg) → is_rejection (ASentinel c) = true.
+Proof.
+  intros HT Hm c Hc. unfold is_rejection, class_of.
+  by rewrite (rejection_text_maps_to_rejection T b msg HT Hm c Hc).
+Qed.
+
+Section rejected_rebroadcast.
+  Context (U : gmap N tx) (Hwf : wf_universe U = true).
+
+  (** (d') the re-broadcast of a recorded transaction that is REJECTED: the
+      caller of PublishTransaction gets the error *)
+  Theorem rejected_rebroadcast_forgets_descendants (cfg : pcfg) (s : store) (F : facts) (t : N) (a : answer) :
+    cfg_class cfg a = drop_err →
+    Inv U s F → t ∈ f_unconf F →
+    ∃ s', publish cfg U t a true s = (PError, s') ∧
+          Inv U s' (spec_abandon U F t) ∧
+          t ∉ f_unconf (spec_abandon U F t) ∧
+          (∀ c, depends_on U F [t] c → c ∉ f_unconf (spec_abandon U F t)) ∧
+          (∀ c, c ∈ f_unconf F → ¬ depends_on U F [t] c → c ∈ f_unconf (spec_abandon U F t)) ∧
+          f_conf (spec_abandon U F t) = f_conf F ∧ f_leases (spec_abandon U F t) = f_leases F.
+  Proof.
+    intros Hb HI Ht.
+    destruct (failed_rebroadcast_forgets_descendants U Hwf cfg s F t a true) as (s' & Hp & H); [|done|done|].
+    { simpl. by rewrite Hb. }
+    exists s'. split; [|done]. rewrite Hp. simpl. by rewrite Hb.
+  Qed.
+End rejected_rebroadcast.
+
+(** the text-level facts and result when answer and truth coincide are those
+    of the configuration [text_cfg] *)
+Lemma spec_publish_text_diag (code : pcfg) (U : gmap N tx) (F : facts) (t : N) (a : answer) (ok : bool) :
+  spec_publish_text code U F t a a ok = spec_publish_cfg (text_cfg code) U F t a ok ∧
+  text_result code a a ok = cfg_result (text_cfg code) a ok.
+Proof. unfold spec_publish_text, spec_publish_cfg, text_result, cfg_result, branch_of. by destruct ok. Qed.
+
+Lemma spec_resend_text_diag (code : pcfg) (U : gmap N tx) : ∀ (l : list N) (answers : list answer) (F : facts),
+  spec_resend_text code U l answers answers F = spec_resend_list (text_cfg code) U l answers F.
+Proof. induction l as [|t l IH]; intros answers F; [done|]. simpl. by rewrite IH. Qed.
